@@ -1239,6 +1239,257 @@ def _minimal(case, verdict):
     return dict(case, reproduced_in_fresh_process=False)
 
 
+# ---------------------------------------------------------------- routes: the same occurrence through every entry route
+# Each route renders an occurrence as a function (plus optional module-level prelude lines) and names the CPython
+# statement that is executed for the verdict. `typed`: the snippet contains a reveal_type of the result.
+def _operand_src(members):
+    srcs = [arg_src(a) for a in members]
+    if len(srcs) == 1:
+        return srcs[0]
+    if len(srcs) == 2:
+        return "(%s if c else %s)" % tuple(srcs)
+    return "(%s if c else %s if e else %s)" % tuple(srcs[:3])
+
+
+def _split_lit(t, isb, k):
+    return "%s %s" % (tmpl_src(t[:k], isb), tmpl_src(t[k:], isb))
+
+
+def pct_route_snippet(route, i, occ, rng):
+    """-> (prelude lines, parameter list, body lines, typed, cpython statement kind)"""
+    isb, t, members = occ
+    T, A = tmpl_src(t, isb), _operand_src(members)
+    params = "c: bool, e: bool"
+    if route == "binop":
+        return [], params, ["reveal_type(%s %% %s)" % (T, A)], True
+    if route == "augAssign":
+        return [], params, ["t = %s" % T, "t %%= %s" % A, "reveal_type(t)"], True
+    if route == "localName":
+        return [], params, ["t = %s" % T, "reveal_type(t %% %s)" % A], True
+    if route == "moduleConst":
+        return ["_K%d = %s" % (i, T)], params, ["reveal_type(_K%d %% %s)" % (i, A)], True
+    if route == "finalName":
+        return ["_F%d: Final = %s" % (i, T)], params, ["reveal_type(_F%d %% %s)" % (i, A)], True
+    if route == "literalParam":
+        return [], params + ", p: Literal[%s]" % T, ["reveal_type(p %% %s)" % A], True
+    if route == "concat":
+        k = rng.randint(0, len(t))
+        return [], params, ["reveal_type(%s %% %s)" % (_split_lit(t, isb, k), A)], True
+    if route == "multiline":
+        return [], params, ["reveal_type((%s" % T, "        %% %s))" % A], True
+    if route == "inCall":
+        return [], params, ["len(%s %% %s)" % (T, A)], False
+    if route == "inReturn":
+        return [], params, ["return %s %% %s" % (T, A)], False
+    if route == "inComprehension":
+        return [], params, ["[%s %% %s for _ in (1,)]" % (T, A)], False
+    if route == "inIf":
+        return [], params, ["if c:", "    %s %% %s" % (T, A)], False
+    if route == "inLambda":
+        return [], params, ["lambda: %s %% %s" % (T, A)], False
+    raise ValueError(route)
+
+
+PCT_ROUTES = ["binop", "augAssign", "localName", "moduleConst", "finalName", "literalParam", "concat", "multiline",
+              "inCall", "inReturn", "inComprehension", "inIf", "inLambda"]
+FMT_ROUTES = ["method", "strDotFormat", "localName", "moduleConst", "starNames", "starLiterals"]
+
+
+def fmt_route_snippet(route, i, case):
+    t, pos, kw = case
+    T = repr(t)
+    plain = ", ".join([FVALS[p] for p in pos] + ["%s=%s" % (k, FVALS[v]) for k, v in kw])
+    tup = "(" + "".join(FVALS[p] + ", " for p in pos) + ")"
+    dct = "{" + ", ".join("%r: %s" % (k, FVALS[v]) for k, v in kw) + "}"
+    if route == "method":
+        return [], ["reveal_type(%s.format(%s))" % (T, plain)]
+    if route == "strDotFormat":
+        return [], ["reveal_type(str.format(%s))" % ", ".join([T] + ([plain] if plain else []))]
+    if route == "localName":
+        return [], ["t = %s" % T, "reveal_type(t.format(%s))" % plain]
+    if route == "moduleConst":
+        return ["_K%d = %s" % (i, T)], ["reveal_type(_K%d.format(%s))" % (i, plain)]
+    if route == "starNames":
+        return [], ["xs = %s" % tup, "d = %s" % dct, "reveal_type(%s.format(*xs, **d))" % T]
+    if route == "starLiterals":
+        return [], ["reveal_type(%s.format(*%s, **%s))" % (T, tup, dct)]
+    raise ValueError(route)
+
+
+def e2e_snippets(snips):
+    """snips: list of (prelude lines, params, body lines). Each snippet becomes its own function; returns per snippet
+    the failures on its lines, collected."""
+    res = []
+    B = 120
+    for b0 in range(0, len(snips), B):
+        batch = snips[b0:b0 + B]
+        lines = ["from typing import Final, Literal"]
+        for pre, _, _ in batch:
+            lines += pre
+        spans = []
+        for j, (_, params, body) in enumerate(batch):
+            lines.append("def r%d(%s):" % (j, params))
+            a = len(lines) + 1
+            lines += ["    " + l for l in body]
+            spans.append((a, len(lines)))
+        fails, _, _ = pya.check_source("\n".join(lines) + "\n")
+        for a, b in spans:
+            res.append(_collect([f for f in fails if f["lineno"] is not None and a <= f["lineno"] <= b]))
+    return res
+
+
+def cpy_statement(route, occ, rng_k=None):
+    """CPython executing the same statement; a union raises if some member does."""
+    isb, t, members = occ
+    out = []
+    for a in members:
+        T, A = tmpl_src(t, isb), arg_src(a)
+        try:
+            import warnings
+            with warnings.catch_warnings():
+                warnings.simplefilter("ignore")
+                if route == "augAssign":
+                    ns = {}
+                    exec("t = %s\nt %%= %s" % (T, A), ns)
+                    r = ns["t"]
+                else:
+                    r = eval("%s %% %s" % (T, A), {})
+            out.append("ok:" + type(r).__name__)
+        except Exception as ex:
+            out.append("raises:" + type(ex).__name__)
+    return out
+
+
+def eval_routes(ctx, pct_cases, fmt_cases, with_model=True, routes=None, froutes=None):
+    """pct_cases: occurrences (isb, t, members); fmt_cases: (t, pos, kw). Every case goes through every route."""
+    rng = ctx.rng
+    routes = routes or PCT_ROUTES
+    froutes = froutes or FMT_ROUTES
+    # ---- %
+    model = lean.run_driver("C17", [occ_line(o) for o in pct_cases]) if (with_model and pct_cases) else None
+    jobs, snips = [], []
+    for ci, occ in enumerate(pct_cases):
+        for r in routes:
+            pre, params, body, typed = pct_route_snippet(r, len(snips), occ, rng)
+            jobs.append((ci, r, typed))
+            snips.append((pre, params, body))
+    got = e2e_snippets(snips)
+    for (ci, r, typed), sn, g in zip(jobs, snips, got):
+        occ = pct_cases[ci]
+        isb, t, members = occ
+        case = {"k": "route", "kind": "pct", "route": r, "occ": occ_json(occ), "source": sn[0] + ["def r(%s):" % sn[1]] + ["    " + l for l in sn[2]]}
+        v = _verdict(g)
+        reals = cpy_statement(r, occ)
+        ctx.count(1, route_occ=1, **{"route_" + r: 1})
+        ctx.nontriv("R%s:%s" % (r, occ_expr(occ)))
+        conforms, dset = True, set()
+        if model is not None:
+            m = parse_model(model[ci])
+            merrs = [] if m["errs"] == "-" else m["errs"].split(",")
+            dset = set() if m["D"] == "-" else set(m["D"].split(","))
+            ctx.corr("route")
+            exp = (merrs[:1], False, m["ty"] if typed else None)
+            if (v[0], v[1], v[2] if typed else None) != exp:
+                conforms = False
+                ctx.disagree("route", case, {"first": v[0], "crash": v[1], "type": v[2]},
+                             {"first": merrs[:1], "crash": False, "type": m["ty"], "note": "the model's verdict does not depend on the route"})
+        if len(ctx.samples) < 12 and ci % 97 == 0 and r in ("augAssign", "literalParam", "concat"):
+            ctx.sample({"route": r, "source": case["source"], "cpython": reals, "pyanalyze": v[0]}, limit=12)
+        raises = any(x.startswith("raises") for x in reals)
+        reports = bool(v[0]) or v[1]
+        nonlint = v[1] or any(k not in LINT_PCT for k in v[0])
+        if raises and not reports:
+            ctx.candidate(case, "route %s: CPython raises (%s) executing the statement but pyanalyze reports nothing" % (r, ",".join(reals)),
+                          cls=pick(dset, MISS_CLASSES), conforms=conforms, stream="route")
+        if not raises:
+            if nonlint:
+                ctx.candidate(case, "route %s: CPython executes the statement but pyanalyze reports %s%s" % (r, v[0], " and crashes" if v[1] else ""),
+                              cls=pick(dset, FP_CLASSES), conforms=conforms, stream="route")
+            elif typed and v[2] != reals[0][3:]:
+                ctx.candidate(case, "route %s: result is %s but the inferred type is %s" % (r, reals[0][3:], v[2]),
+                              cls=None, conforms=conforms, stream="route")
+    # ---- str.format
+    if not fmt_cases:
+        return
+    fmodel = lean.run_driver("C17", ["F %s | %d %s" % (cps(t), len(pos), " ".join(".".join(str(ord(c)) for c in k) for k, _ in kw))
+                                     for t, pos, kw in fmt_cases]) if with_model else None
+    jobs, snips = [], []
+    for ci, fc in enumerate(fmt_cases):
+        for r in froutes:
+            pre, body = fmt_route_snippet(r, len(snips), fc)
+            jobs.append((ci, r))
+            snips.append((pre, "c: bool, e: bool", body))
+    got = e2e_snippets(snips)
+    for (ci, r), sn, g in zip(jobs, snips, got):
+        t, pos, kw = fmt_cases[ci]
+        case = {"k": "route", "kind": "fmt", "route": r, "t": t, "pos": pos, "kw": kw,
+                "source": sn[0] + ["def r(c: bool, e: bool):"] + ["    " + l for l in sn[2]]}
+        msgs = [kind_of(x, _FMT_KINDS) for x in g[0]]
+        real = real_eval(fmt_call_src(t, pos, kw))
+        ctx.count(1, route_occ=1, **{"froute_" + r: 1})
+        ctx.nontriv("Q%s:%s" % (r, fmt_call_src(t, pos, kw)))
+        conforms, dset = True, set()
+        if fmodel is not None:
+            m = parse_model(fmodel[ci])
+            mmsgs = [] if m["msgs"] == "-" else m["msgs"].split(",")
+            dset = set() if m["D"] == "-" else set(m["D"].split(","))
+            ctx.corr("route")
+            if (msgs[:1], g[1], g[2]) != (mmsgs[:1], False, "str"):
+                conforms = False
+                ctx.disagree("route", case, {"first": msgs[:1], "crash": g[1], "type": g[2]}, {"first": mmsgs[:1], "crash": False, "type": "str"})
+        if real.startswith("raises") and not (msgs or g[1]):
+            ctx.candidate(case, "route %s: CPython raises %s but pyanalyze reports nothing" % (r, real[7:]),
+                          cls=pick(dset, MISS_CLASSES), conforms=conforms, stream="route")
+        if real.startswith("ok") and (g[1] or any(k not in LINT_FMT for k in msgs)):
+            ctx.candidate(case, "route %s: CPython formats successfully but pyanalyze reports %s" % (r, msgs), cls=None,
+                          conforms=conforms, stream="route")
+
+
+ROUTE_FIXED = [  # every kind of %-format error, each through every route
+    (False, "%d %s", (("T", ("i65",)),)), (False, "%d", (("T", ("i65", "i65")),)), (False, "%(a)s %(b)s", (("D", ((("s", "a"), "i65"),)),)),
+    (False, "%d", (("S", "s2"),)), (False, "%*d", (("T", ("s1", "i65")),)), (False, "%c", (("S", "s2"),)), (False, "%c", (("S", "f"),)),
+    (True, "%b", (("S", "s1"),)), (True, "%s", (("S", "i65"),)), (False, "%x", (("S", "f"),)), (False, "a%y", (("S", "i65"),)),
+    (False, "100%", (("T", ()),)), (False, "%(a)s", (("S", "i65"),)), (False, "%b", (("S", "i65"),)), (False, "%5%", (("T", ("i65",)),)),
+    (False, "%d %s", (("T", ("i65", "s1")),)), (True, "%d %s", (("T", ("i65", "y1")),)), (False, "%(a)s", (("D", ((("s", "a"), "i65"), (("s", "b"), "i65"))),)),
+    (False, "%s", (("S", "N"),)), (False, "%%", (("T", ()),)), (False, "%d", (("T", ("i65",)), ("T", ("i65", "i65")))),
+    (False, "", (("T", ()),)), (True, "%c", (("S", "i300"),)), (False, "%.2f|%5s", (("T", ("f", "s2")),)),
+]
+FROUTE_FIXED = [("{} {a}", ("i",), ()), ("{} {a}", ("i",), (("a", "i"),)), ("{0} {1}", ("i",), ()), ("{}", (), ()), ("{", ("i",), ()),
+                ("}", (), ()), ("{!x}", ("i",), ()), ("{a}", (), (("a", "s"),)), ("{} {}", ("i", "s"), ()), ("{{}} {0}", ("i",), ()),
+                ("{b}", (), (("a", "i"),)), ("x", (), ())]
+
+
+def gen_routes(ctx):
+    rng = ctx.rng
+    pct = list(ROUTE_FIXED)
+    for pr in corpus_programs():
+        pct += [occ_from_json(o) for o in pr]
+    cp, cf = corpus_cases()
+    pct += [(b, t, (a,)) for b, t, a in cp]
+    for _ in range(ctx.n(110, 1500)):
+        if rng.random() < 0.6:
+            isb = rng.random() < 0.3
+            t = rng.choice(PROG_TEMPLATES) if rng.random() < 0.6 else rand_pct_template(rng, isb)
+            if isb and not all(ord(ch) < 128 for ch in t):
+                isb = False
+            n = 1 if rng.random() < 0.85 else 2
+            members = tuple(prog_arg(rng, t, isb) for _ in range(n))
+            if n > 1 and not _distinct_members(members):
+                members = members[:1]
+        else:
+            isb = rng.random() < 0.3
+            t = rand_pct_template(rng, isb)
+            members = (rand_pct_arg(rng, t, isb),)
+        pct.append((isb, t, members))
+    fmt = list(FROUTE_FIXED) + list(cf)
+    for _ in range(ctx.n(60, 800)):
+        t = rand_fmt_template(rng)
+        pos, kw = rand_fmt_args(rng, t)
+        fmt.append((t, pos, kw))
+    # keyword names must be identifiers to be written as keywords; `zz`-style names are
+    return pct, fmt
+
+
 # ---------------------------------------------------------------- case lists
 def corpus_cases():
     path = os.path.join(lean.HERE, "corpus", "C17.jsonl")
@@ -1352,6 +1603,8 @@ def gen_programs(ctx):
 def run(ctx):
     # programs first: the process has no format-checking history yet
     eval_prog(ctx, gen_programs(ctx), n_fresh_occ=ctx.n(24, 120), n_fresh_prog=ctx.n(6, 24))
+    rp, rf = gen_routes(ctx)
+    eval_routes(ctx, rp, rf)
     pct, pct_e2e, fmt, fmt_e2e, strings = gen(ctx)
     eval_regex(ctx, strings)
     eval_pct(ctx, pct, pct_e2e)
@@ -1360,6 +1613,8 @@ def run(ctx):
 
 def run_impl_only(ctx):
     eval_prog(ctx, gen_programs(ctx), with_model=False, n_fresh_occ=ctx.n(24, 120), n_fresh_prog=ctx.n(6, 24))
+    rp, rf = gen_routes(ctx)
+    eval_routes(ctx, rp, rf, with_model=False)
     pct, pct_e2e, fmt, fmt_e2e, strings = gen(ctx)
     eval_pct(ctx, pct, pct_e2e, with_model=False)
     eval_fmt(ctx, fmt, fmt_e2e, with_model=False)
@@ -1370,7 +1625,12 @@ def replay(ctx, data):
     if not case:
         print("replay file carries no input case")
         return 1
-    if case["k"] == "prog":
+    if case["k"] == "route":
+        if case["kind"] == "pct":
+            eval_routes(ctx, [occ_from_json(case["occ"])], [], routes=[case["route"]])
+        else:
+            eval_routes(ctx, [], [(case["t"], tuple(case["pos"]), tuple((k, v) for k, v in case["kw"]))], froutes=[case["route"]])
+    elif case["k"] == "prog":
         eval_prog(ctx, [[occ_from_json(o) for o in case["occs"]]], n_fresh_occ=1)
     elif case["k"] == "regex":
         eval_regex(ctx, [case["t"]])
